@@ -188,3 +188,763 @@ theorem FScope.claims_sorted : ∀ (ops : List BOp) (s : FScope),
           exact ⟨by omega, this.2⟩
 
 end Risor.C02
+
+namespace Risor.C02
+
+/-! ## the frame machine: what every reachable state satisfies -/
+
+
+theorem upd_same {α : Type} (f : Nat → α) (k : Nat) (v : α) : upd f k v k = v := by simp [upd]
+theorem upd_other {α : Type} (f : Nat → α) (k j : Nat) (v : α) (h : j ≠ k) : upd f k v j = f j := by simp [upd, h]
+
+structure FM.Inv (s : FM) : Prop where
+  acts_lt : ∀ k, k ≤ s.fp → (s.frames k).act < s.nacts
+  acts_mono : ∀ k1 k2, k1 < k2 → k2 ≤ s.fp → (s.frames k1).act < (s.frames k2).act
+  cap_loc : ∀ k a, k ≤ s.fp → (s.frames k).captured = some a → (s.frames k).heapLoc = some a
+  loc_owner : ∀ k a, k ≤ s.fp → (s.frames k).heapLoc = some a → a < s.next ∧ s.owner a = (s.frames k).act
+  cell_owner : ∀ c, c ∈ s.cells → c.addr < s.next ∧ s.owner c.addr = c.act ∧ c.act < s.nacts
+  cell_live : ∀ c k, c ∈ s.cells → k ≤ s.fp → (s.frames k).act = c.act → (s.frames k).heapLoc = some c.addr
+  cell_same : ∀ c1 c2, c1 ∈ s.cells → c2 ∈ s.cells → c1.act = c2.act → c1.addr = c2.addr
+
+theorem FM.inv_init : FM.init.Inv := by
+  constructor <;> simp [FM.init]
+  intro k1 k2 h; omega
+
+/-- two live frames with the same activation are the same frame -/
+theorem FM.Inv.frame_unique {s : FM} (h : s.Inv) (k1 k2 : Nat) (h1 : k1 ≤ s.fp) (h2 : k2 ≤ s.fp)
+    (he : (s.frames k1).act = (s.frames k2).act) : k1 = k2 := by
+  rcases Nat.lt_trichotomy k1 k2 with hlt | heq | hgt
+  · have := h.acts_mono k1 k2 hlt h2; omega
+  · exact heq
+  · have := h.acts_mono k2 k1 hgt h1; omega
+
+theorem FM.inv_call (s : FM) (h : s.Inv) (wide : Bool) :
+    ({ s with
+      frames := upd s.frames (s.fp + 1) { act := s.nacts, heapLoc := if wide then some s.next else none, captured := none },
+      inl := upd s.inl (s.fp + 1) (fun _ => 0),
+      heap := if wide then upd s.heap s.next (fun _ => 0) else s.heap,
+      owner := if wide then upd s.owner s.next s.nacts else s.owner,
+      next := if wide then s.next + 1 else s.next,
+      fp := s.fp + 1, nacts := s.nacts + 1 } : FM).Inv := by
+  constructor
+  · intro k hk
+    dsimp only at hk ⊢
+    by_cases hkk : k = s.fp + 1
+    · subst hkk; simp [upd_same]
+    · rw [upd_other _ _ _ _ hkk]
+      have := h.acts_lt k (by omega); omega
+  · intro k1 k2 h12 hk2
+    dsimp only at hk2 ⊢
+    have hk1 : k1 ≠ s.fp + 1 := by omega
+    rw [upd_other _ _ _ _ hk1]
+    by_cases hkk : k2 = s.fp + 1
+    · subst hkk; rw [upd_same]; exact h.acts_lt k1 (by omega)
+    · rw [upd_other _ _ _ _ hkk]; exact h.acts_mono k1 k2 h12 (by omega)
+  · intro k a hk hc
+    dsimp only at hk hc ⊢
+    by_cases hkk : k = s.fp + 1
+    · subst hkk; rw [upd_same] at hc; simp at hc
+    · rw [upd_other _ _ _ _ hkk] at hc ⊢
+      exact h.cap_loc k a (by omega) hc
+  · intro k a hk hl
+    dsimp only at hk hl ⊢
+    by_cases hkk : k = s.fp + 1
+    · subst hkk
+      rw [upd_same] at hl ⊢
+      cases wide with
+      | false => simp at hl
+      | true =>
+        simp only [if_true, Option.some.injEq] at hl
+        subst hl
+        simp [upd_same]
+    · rw [upd_other _ _ _ _ hkk] at hl ⊢
+      obtain ⟨h1, h2⟩ := h.loc_owner k a (by omega) hl
+      cases wide with
+      | false => exact ⟨h1, h2⟩
+      | true =>
+        refine ⟨by simp; omega, ?_⟩
+        simp only [if_true]
+        rw [upd_other _ _ _ _ (by omega)]
+        exact h2
+  · intro c hc
+    dsimp only at hc ⊢
+    obtain ⟨h1, h2, h3⟩ := h.cell_owner c hc
+    cases wide with
+    | false => exact ⟨h1, h2, by omega⟩
+    | true =>
+      refine ⟨by simp; omega, ?_, by omega⟩
+      simp only [if_true]
+      rw [upd_other _ _ _ _ (by omega)]
+      exact h2
+  · intro c k hc hk hact
+    dsimp only at hc hk hact ⊢
+    by_cases hkk : k = s.fp + 1
+    · subst hkk
+      rw [upd_same] at hact
+      have := (h.cell_owner c hc).2.2
+      simp at hact
+      omega
+    · rw [upd_other _ _ _ _ hkk] at hact ⊢
+      exact h.cell_live c k hc (by omega) hact
+  · intro c1 c2 h1 h2 he
+    exact h.cell_same c1 c2 h1 h2 he
+
+
+/-- the invariant only speaks about frames, cells, allocation and ghost ownership: an operation
+    that leaves them alone (stores, loads) keeps it -/
+theorem FM.Inv.of_same {s t : FM} (h : s.Inv) (h1 : t.frames = s.frames) (h2 : t.fp = s.fp) (h3 : t.nacts = s.nacts)
+    (h4 : t.next = s.next) (h5 : t.owner = s.owner) (h6 : t.cells = s.cells) : t.Inv := by
+  constructor
+  · intro k hk; rw [h1, h3]; rw [h2] at hk; exact h.acts_lt k hk
+  · intro k1 k2 h12 hk; rw [h1]; rw [h2] at hk; exact h.acts_mono k1 k2 h12 hk
+  · intro k a hk hc; rw [h1] at hc ⊢; rw [h2] at hk; exact h.cap_loc k a hk hc
+  · intro k a hk hl; rw [h1] at hl ⊢; rw [h2] at hk; rw [h4, h5]; exact h.loc_owner k a hk hl
+  · intro c hc; rw [h6] at hc; rw [h3, h4, h5]; exact h.cell_owner c hc
+  · intro c k hc hk ha; rw [h6] at hc; rw [h2] at hk; rw [h1] at ha ⊢; exact h.cell_live c k hc hk ha
+  · intro c1 c2 hc1 hc2 he; rw [h6] at hc1 hc2; exact h.cell_same c1 c2 hc1 hc2 he
+
+/-- a frame is popped — by a return or by an error, the slot itself is left as it is -/
+theorem FM.inv_pop (s : FM) (h : s.Inv) : ({ s with fp := s.fp - 1 } : FM).Inv := by
+  constructor
+  · intro k hk; exact h.acts_lt k (by dsimp only at hk; omega)
+  · intro k1 k2 h12 hk; exact h.acts_mono k1 k2 h12 (by dsimp only at hk; omega)
+  · intro k a hk hc; exact h.cap_loc k a (by dsimp only at hk; omega) hc
+  · intro k a hk hl; exact h.loc_owner k a (by dsimp only at hk; omega) hl
+  · intro c hc; exact h.cell_owner c hc
+  · intro c k hc hk ha; exact h.cell_live c k hc (by dsimp only at hk; omega) ha
+  · intro c1 c2 hc1 hc2 he; exact h.cell_same c1 c2 hc1 hc2 he
+
+/-- `MakeCell` on a frame whose locals are on the heap already (captured before, or more than 8 locals) -/
+theorem FM.inv_cell_heap (s : FM) (h : s.Inv) (k : Nat) (hk : k ≤ s.fp) (a idx : Nat)
+    (hl : (s.frames k).heapLoc = some a) :
+    ({ s with frames := upd s.frames k { s.frames k with captured := some a },
+              cells := s.cells ++ [⟨a, idx, (s.frames k).act⟩] } : FM).Inv := by
+  have hfr : ∀ j, (upd s.frames k { s.frames k with captured := some a } j).act = (s.frames j).act ∧
+      (upd s.frames k { s.frames k with captured := some a } j).heapLoc = (s.frames j).heapLoc := by
+    intro j
+    by_cases hj : j = k
+    · subst hj; simp [upd_same]
+    · simp [upd_other _ _ _ _ hj]
+  obtain ⟨ho1, ho2⟩ := h.loc_owner k a hk hl
+  constructor
+  · intro j hj; dsimp only at hj ⊢; rw [(hfr j).1]; exact h.acts_lt j hj
+  · intro k1 k2 h12 hk2; dsimp only at hk2 ⊢; rw [(hfr k1).1, (hfr k2).1]; exact h.acts_mono k1 k2 h12 hk2
+  · intro j b hj hc
+    dsimp only at hj hc ⊢
+    rw [(hfr j).2]
+    by_cases hjk : j = k
+    · subst hjk
+      rw [upd_same] at hc
+      simp only [Option.some.injEq] at hc
+      subst hc; exact hl
+    · rw [upd_other _ _ _ _ hjk] at hc; exact h.cap_loc j b hj hc
+  · intro j b hj hlb
+    dsimp only at hj hlb ⊢
+    rw [(hfr j).2] at hlb; rw [(hfr j).1]
+    exact h.loc_owner j b hj hlb
+  · intro c hc
+    dsimp only at hc ⊢
+    rcases List.mem_append.1 hc with hc | hc
+    · exact h.cell_owner c hc
+    · simp only [List.mem_singleton] at hc
+      subst hc
+      exact ⟨ho1, ho2, h.acts_lt k hk⟩
+  · intro c j hc hj hact
+    dsimp only at hc hj hact ⊢
+    rw [(hfr j).1] at hact; rw [(hfr j).2]
+    rcases List.mem_append.1 hc with hc | hc
+    · exact h.cell_live c j hc hj hact
+    · simp only [List.mem_singleton] at hc
+      subst hc
+      have : j = k := h.frame_unique j k hj hk hact
+      subst this; exact hl
+  · intro c1 c2 hc1 hc2 he
+    dsimp only at hc1 hc2
+    rcases List.mem_append.1 hc1 with hc1 | hc1 <;> rcases List.mem_append.1 hc2 with hc2 | hc2
+    · exact h.cell_same c1 c2 hc1 hc2 he
+    · simp only [List.mem_singleton] at hc2
+      subst hc2
+      have := h.cell_live c1 k hc1 hk he.symm
+      rw [hl] at this
+      exact (Option.some.inj this).symm
+    · simp only [List.mem_singleton] at hc1
+      subst hc1
+      have := h.cell_live c2 k hc2 hk he
+      rw [hl] at this
+      exact Option.some.inj this
+    · simp only [List.mem_singleton] at hc1 hc2
+      subst hc1 hc2; rfl
+
+/-- `MakeCell` on a frame whose locals are still inline: `CaptureLocals` moves them to a fresh heap slice -/
+theorem FM.inv_cell_move (s : FM) (h : s.Inv) (k : Nat) (hk : k ≤ s.fp) (idx : Nat)
+    (hl : (s.frames k).heapLoc = none) :
+    ({ s with heap := upd s.heap s.next (s.inl k),
+              owner := upd s.owner s.next (s.frames k).act,
+              next := s.next + 1,
+              frames := upd s.frames k { s.frames k with heapLoc := some s.next, captured := some s.next },
+              cells := s.cells ++ [⟨s.next, idx, (s.frames k).act⟩] } : FM).Inv := by
+  have hact : ∀ j, (upd s.frames k { s.frames k with heapLoc := some s.next, captured := some s.next } j).act = (s.frames j).act := by
+    intro j
+    by_cases hj : j = k
+    · subst hj; simp [upd_same]
+    · simp [upd_other _ _ _ _ hj]
+  constructor
+  · intro j hj; dsimp only at hj ⊢; rw [hact j]; exact h.acts_lt j hj
+  · intro k1 k2 h12 hk2; dsimp only at hk2 ⊢; rw [hact k1, hact k2]; exact h.acts_mono k1 k2 h12 hk2
+  · intro j b hj hc
+    dsimp only at hj hc ⊢
+    by_cases hjk : j = k
+    · subst hjk
+      rw [upd_same] at hc ⊢
+      exact hc
+    · rw [upd_other _ _ _ _ hjk] at hc ⊢; exact h.cap_loc j b hj hc
+  · intro j b hj hlb
+    dsimp only at hj hlb ⊢
+    rw [hact j]
+    by_cases hjk : j = k
+    · subst hjk
+      rw [upd_same] at hlb
+      simp only [Option.some.injEq] at hlb
+      subst hlb
+      exact ⟨by omega, upd_same _ _ _⟩
+    · rw [upd_other _ _ _ _ hjk] at hlb
+      obtain ⟨h1, h2⟩ := h.loc_owner j b hj hlb
+      exact ⟨by omega, by rw [upd_other _ _ _ _ (by omega)]; exact h2⟩
+  · intro c hc
+    dsimp only at hc ⊢
+    rcases List.mem_append.1 hc with hc | hc
+    · obtain ⟨h1, h2, h3⟩ := h.cell_owner c hc
+      exact ⟨by omega, by rw [upd_other _ _ _ _ (by omega)]; exact h2, h3⟩
+    · simp only [List.mem_singleton] at hc
+      subst hc
+      exact ⟨by dsimp only; omega, upd_same _ _ _, h.acts_lt k hk⟩
+  · intro c j hc hj hcact
+    dsimp only at hc hj hcact ⊢
+    rw [hact j] at hcact
+    rcases List.mem_append.1 hc with hc' | hc'
+    · by_cases hjk : j = k
+      · subst hjk
+        have := h.cell_live c j hc' hj hcact
+        rw [hl] at this; cases this
+      · rw [upd_other _ _ _ _ hjk]; exact h.cell_live c j hc' hj hcact
+    · simp only [List.mem_singleton] at hc'
+      subst hc'
+      have : j = k := h.frame_unique j k hj hk hcact
+      subst this; rw [upd_same]
+  · intro c1 c2 hc1 hc2 he
+    dsimp only at hc1 hc2
+    rcases List.mem_append.1 hc1 with hc1 | hc1 <;> rcases List.mem_append.1 hc2 with hc2 | hc2
+    · exact h.cell_same c1 c2 hc1 hc2 he
+    · simp only [List.mem_singleton] at hc2
+      subst hc2
+      have := h.cell_live c1 k hc1 hk he.symm
+      rw [hl] at this; cases this
+    · simp only [List.mem_singleton] at hc1
+      subst hc1
+      have := h.cell_live c2 k hc2 hk he
+      rw [hl] at this; cases this
+    · simp only [List.mem_singleton] at hc1 hc2
+      subst hc1 hc2; rfl
+
+/-- `MakeCell` on a frame that has been captured before: no change to the frame -/
+theorem FM.inv_cell_again (s : FM) (h : s.Inv) (k : Nat) (hk : k ≤ s.fp) (a idx : Nat)
+    (hc : (s.frames k).captured = some a) :
+    ({ s with cells := s.cells ++ [⟨a, idx, (s.frames k).act⟩] } : FM).Inv := by
+  have hl := h.cap_loc k a hk hc
+  have h' := FM.inv_cell_heap s h k hk a idx hl
+  have hfr : upd s.frames k { s.frames k with captured := some a } = s.frames := by
+    funext j
+    by_cases hj : j = k
+    · subst hj; rw [upd_same]; rw [← hc]
+    · exact upd_other _ _ _ _ hj
+  exact FM.Inv.of_same h' (by dsimp only; rw [hfr]) rfl rfl rfl rfl rfl
+
+/-- **every operation keeps the invariant** -/
+theorem FM.inv_step (s s' : FM) (op : FOp) (h : s.Inv) (hs : s.step op = some s') : s'.Inv := by
+  cases op with
+  | call wide =>
+    simp only [FM.step, Option.some.injEq] at hs
+    subst hs
+    exact FM.inv_call s h wide
+  | ret =>
+    simp only [FM.step] at hs
+    split at hs
+    · cases hs
+    · simp only [Option.some.injEq] at hs; subst hs; exact FM.inv_pop s h
+  | abort =>
+    simp only [FM.step] at hs
+    split at hs
+    · cases hs
+    · simp only [Option.some.injEq] at hs; subst hs; exact FM.inv_pop s h
+  | makeCell idx back =>
+    simp only [FM.step] at hs
+    split at hs
+    · cases hs
+    · rename_i hb
+      have hk : s.fp - back ≤ s.fp := Nat.sub_le _ _
+      split at hs
+      · rename_i _ a hc
+        simp only [Option.some.injEq] at hs; subst hs
+        exact FM.inv_cell_again s h _ hk a idx hc
+      · rename_i a hc hl
+        simp only [Option.some.injEq] at hs; subst hs
+        exact FM.inv_cell_heap s h _ hk a idx hl
+      · rename_i hc hl
+        simp only [Option.some.injEq] at hs; subst hs
+        exact FM.inv_cell_move s h _ hk idx hl
+  | storeFast idx v =>
+    simp only [FM.step] at hs
+    split at hs <;> (simp only [Option.some.injEq] at hs; subst hs; exact FM.Inv.of_same h rfl rfl rfl rfl rfl rfl)
+  | loadFast idx =>
+    simp only [FM.step, Option.some.injEq] at hs
+    subst hs; exact FM.Inv.of_same h rfl rfl rfl rfl rfl rfl
+  | storeFree c v =>
+    simp only [FM.step] at hs
+    split at hs
+    · simp only [Option.some.injEq] at hs; subst hs; exact FM.Inv.of_same h rfl rfl rfl rfl rfl rfl
+    · cases hs
+  | loadFree c =>
+    simp only [FM.step] at hs
+    split at hs
+    · simp only [Option.some.injEq] at hs; subst hs; exact FM.Inv.of_same h rfl rfl rfl rfl rfl rfl
+    · cases hs
+
+theorem FM.inv_run : ∀ (ops : List FOp) (s s' : FM), s.Inv → FM.run s ops = some s' → s'.Inv := by
+  intro ops
+  induction ops with
+  | nil => intro s s' h hr; simp only [FM.run, Option.some.injEq] at hr; subst hr; exact h
+  | cons op ops ih =>
+    intro s s' h hr
+    simp only [FM.run] at hr
+    cases hst : s.step op with
+    | none => rw [hst] at hr; cases hr
+    | some s1 =>
+      rw [hst] at hr
+      exact ih s1 s' (FM.inv_step s s1 op h hst) hr
+
+
+end Risor.C02
+
+namespace Risor.C02
+
+/-! ## the frame machine shows the variables of the variable machine (simulation) -/
+
+/-- the frame machine `s` shows the variables of `t` -/
+structure FM.Sim (s : FM) (t : VarM) : Prop where
+  fp_eq : t.fp = s.fp
+  nacts_eq : t.nacts = s.nacts
+  out_eq : t.out = s.out
+  stack_eq : ∀ k, k ≤ s.fp → t.stackf k = (s.frames k).act
+  cells_eq : t.cells = s.cells.map fun c => (c.act, c.idx)
+  frame_content : ∀ k i, k ≤ s.fp → s.frameVal k i = t.vars (s.frames k).act i
+  cell_content : ∀ c i, c ∈ s.cells → s.heap c.addr i = t.vars c.act i
+
+theorem FM.sim_init : FM.init.Sim VarM.init := by
+  constructor <;> simp [FM.init, VarM.init, FM.frameVal]
+
+theorem FM.sim_call (s : FM) (t : VarM) (h : s.Inv) (hs : s.Sim t) (wide : Bool) (s' : FM) (t' : VarM)
+    (h1 : s.step (.call wide) = some s') (h2 : t.step (.call wide) = some t') : s'.Sim t' := by
+  simp only [FM.step, Option.some.injEq] at h1
+  simp only [VarM.step, Option.some.injEq] at h2
+  subst h1 h2
+  constructor
+  · dsimp only; rw [hs.fp_eq]
+  · dsimp only; rw [hs.nacts_eq]
+  · exact hs.out_eq
+  · intro k hk
+    dsimp only at hk ⊢
+    rw [hs.fp_eq, hs.nacts_eq]
+    by_cases hkk : k = s.fp + 1
+    · subst hkk; rw [upd_same, upd_same]
+    · rw [upd_other _ _ _ _ hkk, upd_other _ _ _ _ hkk]; exact hs.stack_eq k (by omega)
+  · exact hs.cells_eq
+  · intro k i hk
+    dsimp only at hk
+    simp only [FM.frameVal]
+    rw [hs.nacts_eq]
+    by_cases hkk : k = s.fp + 1
+    · subst hkk
+      rw [upd_same]
+      cases wide <;> simp [upd_same]
+    · rw [upd_other _ _ _ _ hkk]
+      have hact := h.acts_lt k (by omega)
+      have hne : (s.frames k).act ≠ s.nacts := by omega
+      have := hs.frame_content k i (by omega)
+      simp only [FM.frameVal] at this
+      cases hl : (s.frames k).heapLoc with
+      | none => rw [hl] at this; simpa [upd, hkk, hne] using this
+      | some a =>
+        rw [hl] at this
+        have ha := (h.loc_owner k a (by omega) hl).1
+        have hne2 : a ≠ s.next := by omega
+        cases wide <;> simpa [upd, hne, hne2] using this
+  · intro c i hc
+    dsimp only at hc ⊢
+    obtain ⟨ha, _, hact⟩ := h.cell_owner c hc
+    have hne : c.act ≠ s.nacts := by omega
+    have hne2 : c.addr ≠ s.next := by omega
+    have := hs.cell_content c i hc
+    rw [hs.nacts_eq]
+    cases wide <;> simpa [upd, hne, hne2] using this
+
+theorem FM.sim_pop (s : FM) (t : VarM) (hs : s.Sim t) : ({ s with fp := s.fp - 1 } : FM).Sim { t with fp := t.fp - 1 } := by
+  constructor
+  · dsimp only; rw [hs.fp_eq]
+  · exact hs.nacts_eq
+  · exact hs.out_eq
+  · intro k hk; exact hs.stack_eq k (by dsimp only at hk; omega)
+  · exact hs.cells_eq
+  · intro k i hk; exact hs.frame_content k i (by dsimp only at hk; omega)
+  · exact hs.cell_content
+
+
+theorem FM.sim_add_cell (s : FM) (t : VarM) (hs : s.Sim t) (k a idx : Nat) (hk : k ≤ s.fp)
+    (hl : (s.frames k).heapLoc = some a) (fr' : Nat → FFrame)
+    (hfr : ∀ j, (fr' j).act = (s.frames j).act ∧ (fr' j).heapLoc = (s.frames j).heapLoc) :
+    ({ s with frames := fr', cells := s.cells ++ [⟨a, idx, (s.frames k).act⟩] } : FM).Sim
+      { t with cells := t.cells ++ [(t.stackf k, idx)] } := by
+  have hka : ∀ i, s.heap a i = t.vars (s.frames k).act i := by
+    intro i
+    have := hs.frame_content k i hk
+    simpa only [FM.frameVal, hl] using this
+  constructor
+  · exact hs.fp_eq
+  · exact hs.nacts_eq
+  · exact hs.out_eq
+  · intro j hj; dsimp only at hj ⊢; rw [(hfr j).1]; exact hs.stack_eq j hj
+  · dsimp only; rw [hs.cells_eq, hs.stack_eq k hk]; simp
+  · intro j i hj
+    dsimp only at hj
+    have := hs.frame_content j i hj
+    simp only [FM.frameVal] at this ⊢
+    rw [(hfr j).1, (hfr j).2]; exact this
+  · intro c i hc
+    dsimp only at hc ⊢
+    rcases List.mem_append.1 hc with hc' | hc'
+    · exact hs.cell_content c i hc'
+    · simp only [List.mem_singleton] at hc'
+      subst hc'; exact hka i
+
+/-- a store that changes exactly variable `idx` of activation `A`, in every frame and through every cell -/
+theorem FM.sim_store (s : FM) (t : VarM) (hs : s.Sim t) (A idx : Nat) (v : Int) (heap' inl' : Nat → Nat → Int)
+    (hf : ∀ j i, j ≤ s.fp → ({ s with heap := heap', inl := inl' } : FM).frameVal j i =
+      if (s.frames j).act = A ∧ i = idx then v else s.frameVal j i)
+    (hc : ∀ c i, c ∈ s.cells → heap' c.addr i = if c.act = A ∧ i = idx then v else s.heap c.addr i) :
+    ({ s with heap := heap', inl := inl' } : FM).Sim { t with vars := upd t.vars A (upd (t.vars A) idx v) } := by
+  constructor
+  · exact hs.fp_eq
+  · exact hs.nacts_eq
+  · exact hs.out_eq
+  · exact hs.stack_eq
+  · exact hs.cells_eq
+  · intro j i hj
+    dsimp only at hj
+    rw [hf j i hj]
+    dsimp only
+    have := hs.frame_content j i hj
+    by_cases h1 : (s.frames j).act = A
+    · by_cases h2 : i = idx
+      · simp [upd, h1, h2]
+      · simp [upd, h1, h2]; rw [← h1]; exact this
+    · simp [upd, h1]; exact this
+  · intro c i hcm
+    dsimp only at hcm ⊢
+    rw [hc c i hcm]
+    have := hs.cell_content c i hcm
+    by_cases h1 : c.act = A
+    · by_cases h2 : i = idx
+      · simp [upd, h1, h2]
+      · simp [upd, h1, h2]; rw [← h1]; exact this
+    · simp [upd, h1]; exact this
+
+
+theorem FM.sim_cell_move (s : FM) (t : VarM) (h : s.Inv) (hs : s.Sim t) (k idx : Nat) (hk : k ≤ s.fp)
+    (hl : (s.frames k).heapLoc = none) :
+    ({ s with heap := upd s.heap s.next (s.inl k),
+              owner := upd s.owner s.next (s.frames k).act,
+              next := s.next + 1,
+              frames := upd s.frames k { s.frames k with heapLoc := some s.next, captured := some s.next },
+              cells := s.cells ++ [⟨s.next, idx, (s.frames k).act⟩] } : FM).Sim
+      { t with cells := t.cells ++ [(t.stackf k, idx)] } := by
+  have hact : ∀ j, (upd s.frames k { s.frames k with heapLoc := some s.next, captured := some s.next } j).act = (s.frames j).act := by
+    intro j
+    by_cases hj : j = k
+    · subst hj; simp [upd_same]
+    · simp [upd_other _ _ _ _ hj]
+  have hkv : ∀ i, s.inl k i = t.vars (s.frames k).act i := by
+    intro i
+    have := hs.frame_content k i hk
+    simpa only [FM.frameVal, hl] using this
+  constructor
+  · exact hs.fp_eq
+  · exact hs.nacts_eq
+  · exact hs.out_eq
+  · intro j hj; dsimp only at hj ⊢; rw [hact j]; exact hs.stack_eq j hj
+  · dsimp only; rw [hs.cells_eq, hs.stack_eq k hk]; simp
+  · intro j i hj
+    dsimp only at hj
+    simp only [FM.frameVal]
+    rw [hact j]
+    by_cases hjk : j = k
+    · subst hjk
+      rw [upd_same]
+      simp only [upd_same]
+      exact hkv i
+    · rw [upd_other _ _ _ _ hjk]
+      have := hs.frame_content j i hj
+      simp only [FM.frameVal] at this
+      cases hlj : (s.frames j).heapLoc with
+      | none => rw [hlj] at this; exact this
+      | some a =>
+        rw [hlj] at this
+        have ha := (h.loc_owner j a hj hlj).1
+        simp only
+        rw [upd_other _ _ _ _ (by omega)]; exact this
+  · intro c i hc
+    dsimp only at hc ⊢
+    rcases List.mem_append.1 hc with hc' | hc'
+    · have ha := (h.cell_owner c hc').1
+      rw [upd_other _ _ _ _ (by omega)]
+      exact hs.cell_content c i hc'
+    · simp only [List.mem_singleton] at hc'
+      subst hc'
+      dsimp only
+      rw [upd_same]; exact hkv i
+
+/-- `StoreFast idx v` on the frame machine changes exactly variable `idx` of the running activation -/
+theorem FM.sim_storeFast (s : FM) (t : VarM) (h : s.Inv) (hs : s.Sim t) (idx : Nat) (v : Int) (s' : FM)
+    (h1 : s.step (.storeFast idx v) = some s') :
+    s'.Sim { t with vars := upd t.vars (s.frames s.fp).act (upd (t.vars (s.frames s.fp).act) idx v) } := by
+  simp only [FM.step] at h1
+  split at h1
+  · rename_i a hl
+    simp only [Option.some.injEq] at h1; subst h1
+    have := FM.sim_store s t hs (s.frames s.fp).act idx v (upd s.heap a (upd (s.heap a) idx v)) s.inl ?_ ?_
+    · exact this
+    · intro j i hj
+      simp only [FM.frameVal]
+      cases hlj : (s.frames j).heapLoc with
+      | none =>
+        have hne : (s.frames j).act ≠ (s.frames s.fp).act := by
+          intro he
+          have := h.frame_unique j s.fp hj (Nat.le_refl _) he
+          subst this; rw [hl] at hlj; cases hlj
+        simp [hne]
+      | some b =>
+        simp only
+        by_cases hba : b = a
+        · subst hba
+          have e1 := (h.loc_owner j b hj hlj).2
+          have e2 := (h.loc_owner s.fp b (Nat.le_refl _) hl).2
+          have hact : (s.frames j).act = (s.frames s.fp).act := e1.symm.trans e2
+          by_cases hi : i = idx
+          · simp [upd, hact, hi]
+          · simp [upd, hact, hi]
+        · have hne : (s.frames j).act ≠ (s.frames s.fp).act := by
+            intro he
+            have := h.frame_unique j s.fp hj (Nat.le_refl _) he
+            subst this; rw [hl] at hlj; exact hba (Option.some.inj hlj).symm
+          simp [upd, hba, hne]
+    · intro c i hc
+      by_cases hca : c.addr = a
+      · have e1 := (h.cell_owner c hc).2.1
+        have e2 := (h.loc_owner s.fp a (Nat.le_refl _) hl).2
+        rw [hca] at e1
+        have hact : c.act = (s.frames s.fp).act := e1.symm.trans e2
+        by_cases hi : i = idx
+        · simp [upd, hca, hact, hi]
+        · simp [upd, hca, hact, hi]
+      · have hne : c.act ≠ (s.frames s.fp).act := by
+          intro he
+          have := h.cell_live c s.fp hc (Nat.le_refl _) he.symm
+          rw [hl] at this; exact hca (Option.some.inj this).symm
+        simp [upd, hca, hne]
+  · rename_i hl
+    simp only [Option.some.injEq] at h1; subst h1
+    have := FM.sim_store s t hs (s.frames s.fp).act idx v s.heap (upd s.inl s.fp (upd (s.inl s.fp) idx v)) ?_ ?_
+    · exact this
+    · intro j i hj
+      simp only [FM.frameVal]
+      by_cases hjf : j = s.fp
+      · subst hjf
+        rw [hl]
+        by_cases hi : i = idx
+        · simp [upd, hi]
+        · simp [upd, hi]
+      · have hne : (s.frames j).act ≠ (s.frames s.fp).act := by
+          intro he
+          exact hjf (h.frame_unique j s.fp hj (Nat.le_refl _) he)
+        cases hlj : (s.frames j).heapLoc with
+        | none => simp [upd, hjf, hne]
+        | some b => simp [hne]
+    · intro c i hc
+      have hne : c.act ≠ (s.frames s.fp).act := by
+        intro he
+        have := h.cell_live c s.fp hc (Nat.le_refl _) he.symm
+        rw [hl] at this; cases this
+      simp [hne]
+
+/-- `StoreFree` through cell `cl` changes exactly variable `cl.idx` of activation `cl.act` -/
+theorem FM.sim_storeFree (s : FM) (t : VarM) (h : s.Inv) (hs : s.Sim t) (cl : FCell) (hcl : cl ∈ s.cells) (v : Int) :
+    ({ s with heap := upd s.heap cl.addr (upd (s.heap cl.addr) cl.idx v) } : FM).Sim
+      { t with vars := upd t.vars cl.act (upd (t.vars cl.act) cl.idx v) } := by
+  have := FM.sim_store s t hs cl.act cl.idx v (upd s.heap cl.addr (upd (s.heap cl.addr) cl.idx v)) s.inl ?_ ?_
+  · exact this
+  · intro j i hj
+    simp only [FM.frameVal]
+    cases hlj : (s.frames j).heapLoc with
+    | none =>
+      have hne : (s.frames j).act ≠ cl.act := by
+        intro he
+        have := h.cell_live cl j hcl hj he
+        rw [hlj] at this; cases this
+      simp [hne]
+    | some b =>
+      simp only
+      by_cases hba : b = cl.addr
+      · have e1 := (h.loc_owner j b hj hlj).2
+        have e2 := (h.cell_owner cl hcl).2.1
+        rw [hba] at e1
+        have hact : (s.frames j).act = cl.act := e1.symm.trans e2
+        by_cases hi : i = cl.idx
+        · simp [upd, hba, hact, hi]
+        · simp [upd, hba, hact, hi]
+      · have hne : (s.frames j).act ≠ cl.act := by
+          intro he
+          have := h.cell_live cl j hcl hj he
+          rw [hlj] at this; exact hba (Option.some.inj this)
+        simp [upd, hba, hne]
+  · intro c i hc
+    by_cases hca : c.addr = cl.addr
+    · have e1 := (h.cell_owner c hc).2.1
+      have e2 := (h.cell_owner cl hcl).2.1
+      rw [hca] at e1
+      have hact : c.act = cl.act := e1.symm.trans e2
+      by_cases hi : i = cl.idx
+      · simp [upd, hca, hact, hi]
+      · simp [upd, hca, hact, hi]
+    · have hne : c.act ≠ cl.act := fun he => hca (h.cell_same c cl hc hcl he)
+      simp [upd, hca, hne]
+
+
+/-- one operation: both machines accept it or both refuse it, and they stay related -/
+theorem FM.sim_step (s : FM) (t : VarM) (h : s.Inv) (hs : s.Sim t) (op : FOp) :
+    match s.step op, t.step op with
+    | some s', some t' => s'.Sim t'
+    | none, none => True
+    | _, _ => False := by
+  cases op with
+  | call wide =>
+    exact FM.sim_call s t h hs wide _ _ rfl rfl
+  | ret =>
+    by_cases h0 : s.fp = 0
+    · have h0' : t.fp = 0 := by rw [hs.fp_eq]; exact h0
+      simp [FM.step, VarM.step, h0, h0']
+    · have h0' : ¬ t.fp = 0 := by rw [hs.fp_eq]; exact h0
+      simp only [FM.step, VarM.step, h0, h0', if_false]
+      exact FM.sim_pop s t hs
+  | abort =>
+    by_cases h0 : s.fp = 0
+    · have h0' : t.fp = 0 := by rw [hs.fp_eq]; exact h0
+      simp [FM.step, VarM.step, h0, h0']
+    · have h0' : ¬ t.fp = 0 := by rw [hs.fp_eq]; exact h0
+      simp only [FM.step, VarM.step, h0, h0', if_false]
+      exact FM.sim_pop s t hs
+  | makeCell idx back =>
+    by_cases hb : back > s.fp
+    · have hb' : back > t.fp := by rw [hs.fp_eq]; exact hb
+      simp [FM.step, VarM.step, hb, hb']
+    · have hb' : ¬ back > t.fp := by rw [hs.fp_eq]; exact hb
+      have hfp : t.fp - back = s.fp - back := by rw [hs.fp_eq]
+      simp only [FM.step, VarM.step, hb, hb', if_false, hfp]
+      have hk : s.fp - back ≤ s.fp := Nat.sub_le _ _
+      cases hc : (s.frames (s.fp - back)).captured with
+      | some a =>
+        have hl := h.cap_loc _ a hk hc
+        simp only
+        exact FM.sim_add_cell s t hs (s.fp - back) a idx hk hl s.frames (fun j => ⟨rfl, rfl⟩)
+      | none =>
+        cases hl : (s.frames (s.fp - back)).heapLoc with
+        | some a =>
+          simp only
+          refine FM.sim_add_cell s t hs (s.fp - back) a idx hk hl _ ?_
+          intro j
+          by_cases hj : j = s.fp - back
+          · subst hj; simp [upd_same, hl]
+          · simp [upd_other _ _ _ _ hj]
+        | none =>
+          simp only
+          exact FM.sim_cell_move s t h hs (s.fp - back) idx hk hl
+  | storeFast idx v =>
+    have hst : t.stackf t.fp = (s.frames s.fp).act := by
+      rw [hs.fp_eq]; exact hs.stack_eq s.fp (Nat.le_refl _)
+    cases h1 : s.step (.storeFast idx v) with
+    | none =>
+      simp only [FM.step] at h1
+      split at h1 <;> cases h1
+    | some s' =>
+      simp only [VarM.step, hst]
+      exact FM.sim_storeFast s t h hs idx v s' h1
+  | loadFast idx =>
+    simp only [FM.step, VarM.step]
+    have hst : t.stackf t.fp = (s.frames s.fp).act := by
+      rw [hs.fp_eq]; exact hs.stack_eq s.fp (Nat.le_refl _)
+    have hv : s.readFast idx = t.vars (t.stackf t.fp) idx := by
+      rw [hst]
+      exact hs.frame_content s.fp idx (Nat.le_refl _)
+    constructor
+    · exact hs.fp_eq
+    · exact hs.nacts_eq
+    · dsimp only; rw [hv, hs.out_eq]
+    · exact hs.stack_eq
+    · exact hs.cells_eq
+    · exact hs.frame_content
+    · exact hs.cell_content
+  | storeFree c v =>
+    have htc : t.cells[c]? = (s.cells[c]?).map fun c => (c.act, c.idx) := by rw [hs.cells_eq, List.getElem?_map]
+    cases hc : s.cells[c]? with
+    | none => rw [hc] at htc; simp [FM.step, VarM.step, hc, htc]
+    | some cl =>
+      rw [hc] at htc
+      simp only [FM.step, VarM.step, hc, htc, Option.map_some]
+      exact FM.sim_storeFree s t h hs cl (List.mem_of_getElem? hc) v
+  | loadFree c =>
+    have htc : t.cells[c]? = (s.cells[c]?).map fun c => (c.act, c.idx) := by rw [hs.cells_eq, List.getElem?_map]
+    cases hc : s.cells[c]? with
+    | none => rw [hc] at htc; simp [FM.step, VarM.step, hc, htc]
+    | some cl =>
+      rw [hc] at htc
+      simp only [FM.step, VarM.step, hc, htc, Option.map_some]
+      have hv : s.readCell cl = t.vars cl.act cl.idx := hs.cell_content cl cl.idx (List.mem_of_getElem? hc)
+      constructor
+      · exact hs.fp_eq
+      · exact hs.nacts_eq
+      · dsimp only; rw [hv, hs.out_eq]
+      · exact hs.stack_eq
+      · exact hs.cells_eq
+      · exact hs.frame_content
+      · exact hs.cell_content
+
+theorem FM.sim_run : ∀ (ops : List FOp) (s : FM) (t : VarM), s.Inv → s.Sim t →
+    (FM.run s ops).map (·.out) = (VarM.run t ops).map (·.out) := by
+  intro ops
+  induction ops with
+  | nil => intro s t _ hs; simp only [FM.run, VarM.run, Option.map_some, hs.out_eq]
+  | cons op ops ih =>
+    intro s t h hs
+    have hstep := FM.sim_step s t h hs op
+    simp only [FM.run, VarM.run]
+    cases h1 : s.step op with
+    | none =>
+      cases h2 : t.step op with
+      | none => rfl
+      | some t' => rw [h1, h2] at hstep; exact absurd hstep (by simp)
+    | some s' =>
+      cases h2 : t.step op with
+      | none => rw [h1, h2] at hstep; exact absurd hstep (by simp)
+      | some t' =>
+        rw [h1, h2] at hstep
+        exact ih s' t' (FM.inv_step s s' op h h1) hstep
+
+
+end Risor.C02
